@@ -535,9 +535,15 @@ def modelled_resource(rng, g, pg, typ, width=None):
         P = {"GroupDescription": g.s(1)}
         if r.random() < 0.8:
             rules = [sg_rule(r, g, pg, False, width) for _ in range(r.randint(1, 3))]
+            if r.random() < 0.2:
+                # a MEMBER of the rule list that is a function: an optional rule (seeded change C05-r7Hm2 dropped the per-member
+                # Resolvable[...] from the annotation: parse refused this valid template)
+                rules.insert(r.randrange(len(rules) + 1), {"Fn::If": [g.cname(), sg_rule(r, g, pg, False, width), copy.deepcopy(NOVALUE)]})
             P["SecurityGroupIngress"] = rules if r.random() < 0.8 else rules[0]
         if r.random() < 0.5:
             P["SecurityGroupEgress"] = [sg_rule(r, g, pg, True, width)]
+            if r.random() < 0.2:
+                P["SecurityGroupEgress"].append({"Fn::If": [g.cname(), copy.deepcopy(NOVALUE), sg_rule(r, g, pg, True, width)]})
         if r.random() < 0.3:
             P["VpcId"] = pg.opt(g.s(1))
         if r.random() < 0.3:
@@ -558,6 +564,10 @@ def modelled_resource(rng, g, pg, typ, width=None):
         res = schemagen.Gen(random.Random(r.random()), fn_rate=0.0, opt_rate=0.5, resolvable=True).resource((), type_string=typ)
         res.pop("Condition", None)
         return res
+    if typ in ("AWS::IAM::Group", "AWS::IAM::User") and r.random() < 0.12:
+        # the two modelled classes whose Properties section is optional: a bare resource is valid, and every query on it answers
+        # (seeded change C05-r7Gm2: policy_documents of a group without Properties raised AttributeError)
+        return {"Type": typ}
     return {"Type": typ, "Properties": P}
 
 
